@@ -18,6 +18,13 @@
 //     result): it is the only step of the machine that is not an atomic operation of the kernel.
 //   * operation `inc`: acquire_record(); combine( op_inc, pRec, *this ); result = pRec->nResult; release_record( pRec ).
 //
+// Second container kind, `--container deque` (tie of the GENERIC machine CdsVerif/Algo/FC/KernelG.lean with the deque object,
+// `cdsdriver replay fckernelg`): a std::deque<long> with the FCDeque operation codes WITHOUT elimination
+// (op_push_front = 2, op_push_back = 4, op_pop_front = 6, op_pop_back = 7; always `combine`, never `batch_combine`);
+// operations and values come from the program; fc_apply is the pseudo-event `exec r<i> <result>` with the result as the
+// member function returns it, comma-separated (push: `1`; pop: `0` when empty, `1,<value>` otherwise).  Header word
+// `container=deque`.  Oracle: every popped value was pushed, none twice, popped + remaining = pushed.
+//
 // Client-side oracle (independent of the machine): after the run the results of all operations are exactly the
 // numbers 0 .. n-1, each once (every request executed exactly once), and the counter equals n.
 // (Counts of the situations exercised - record deactivated with a pending request, republish under the lock, passive
@@ -27,6 +34,8 @@
 #include <cds/algo/flat_combining/kernel.h>
 #include <cds/sync/spinlock.h>
 #include <cstddef>
+#include <deque>
+#include <set>
 #include <memory>
 #include "../client.h"
 
@@ -37,7 +46,9 @@ static const int MAXT = 8;
 
 struct Counter : fc::container {
     enum { op_inc = fc::req_Operation };
-    struct rec : fc::publication_record { long nResult; };
+    // FCDeque's codes (cds/container/fcdeque.h), the `_move` variants and op_clear are not used
+    enum { op_push_front = fc::req_Operation, op_push_front_move, op_push_back, op_push_back_move, op_pop_front, op_pop_back };
+    struct rec : fc::publication_record { long nArg; long nResult; bool bEmpty; };
     struct traits : fc::traits {
         typedef cds::sync::spin lock_type;
         typedef fc::wait_strategy::backoff<> wait_strategy;
@@ -46,10 +57,12 @@ struct Counter : fc::container {
     typedef kernel_t::publication_record_type record_t;
 
     kernel_t k;
+    bool isDeque;
     long value = 0;
+    std::deque<long> dq;
     unsigned long applied = 0;
 
-    Counter( unsigned compact, unsigned pass ) : k( compact, pass ) {}
+    Counter( unsigned compact, unsigned pass, bool deque ) : k( compact, pass ), isDeque( deque ) {}
 
     long inc()
     {
@@ -59,12 +72,47 @@ struct Counter : fc::container {
         k.release_record( p );
         return r;
     }
+    // the four FCDeque member functions, without elimination
+    std::vector<long> dop( unsigned code, long arg )
+    {
+        record_t* p = k.acquire_record();
+        p->nArg = arg;
+        k.combine( code, p, *this );
+        std::vector<long> r;
+        if ( code == op_push_front || code == op_push_back ) r = { 1 };
+        else if ( p->bEmpty ) r = { 0 };
+        else r = { 1, p->nResult };
+        k.release_record( p );
+        return r;
+    }
     void fc_apply( record_t* p )
     {
         pseudo_begin();
-        p->nResult = value++;
+        std::string res;
+        if ( !isDeque ) {
+            p->nResult = value++;
+            res = std::to_string( p->nResult );
+        }
+        else {
+            set_quiet( true );      // FCDeque::fc_apply switches on pRec->op(): part of the one `exec` step
+            unsigned code = p->op();
+            set_quiet( false );
+            switch ( code ) {
+            case op_push_front: dq.push_front( p->nArg ); res = "1"; break;
+            case op_push_back: dq.push_back( p->nArg ); res = "1"; break;
+            case op_pop_front:
+                p->bEmpty = dq.empty();
+                if ( !p->bEmpty ) { p->nResult = dq.front(); dq.pop_front(); res = "1," + std::to_string( p->nResult ); } else res = "0";
+                break;
+            case op_pop_back:
+                p->bEmpty = dq.empty();
+                if ( !p->bEmpty ) { p->nResult = dq.back(); dq.pop_back(); res = "1," + std::to_string( p->nResult ); } else res = "0";
+                break;
+            default: res = "?"; break;
+            }
+        }
         ++applied;
-        pseudo_end( "exec", name_of( static_cast<fc::publication_record*>( p )), std::to_string( p->nResult ));
+        pseudo_end( "exec", name_of( static_cast<fc::publication_record*>( p )), res );
     }
 };
 
@@ -82,6 +130,8 @@ struct Fixture {
     static std::vector<std::string> variants() { return { "counter" }; }
     std::unique_ptr<Counter> c;
     unsigned compact = 1, pass = 1;
+    bool deque = false;
+    std::vector<long> pushed, popped;
     int nthreads = 0;
     std::vector<long> results;
     fc::publication_record* recs[MAXT];
@@ -94,7 +144,8 @@ struct Fixture {
         compact = unsigned( cs.optl( "compact", long( compacts[cs.index % 3] )));
         pass = unsigned( cs.optl( "pass", long( 1 + ( cs.index / 3 ) % 3 )));
         nthreads = cs.threads;
-        c.reset( new Counter( compact, pass ));
+        deque = cs.opt.count( "container" ) && cs.opt.at( "container" ) == "deque";
+        c.reset( new Counter( compact, pass, deque ));
         for ( int i = 0; i < MAXT; ++i ) recs[i] = nullptr;
         reg_name( &c->k.m_Mutex, sizeof c->k.m_Mutex, "lock" );
         reg_name( &c->k.m_nCount, sizeof c->k.m_nCount, "m_nCount" );
@@ -105,14 +156,22 @@ struct Fixture {
     std::string header_extra() const
     {
         return "cf=" + std::to_string( c->k.m_nCompactFactor ) + " pass=" + std::to_string( c->k.m_nCombinePassCount )
-             + " compact=" + std::to_string( compact );
+             + " compact=" + std::to_string( compact ) + " container=" + ( deque ? "deque" : "counter" );
     }
     std::vector<std::vector<Op>> program( Rng& r, int nthreads, int nops )
     {
         std::vector<std::vector<Op>> p( nthreads );
         for ( int t = 0; t < nthreads; ++t ) {
             int n = 1 + int( r.below( nops ));
-            for ( int i = 0; i < n; ++i ) p[t].push_back( Op( "inc" ));
+            for ( int i = 0; i < n; ++i ) {
+                if ( !deque ) { p[t].push_back( Op( "inc" )); continue; }
+                unsigned k = unsigned( r.below( 100 ));
+                long v = 100 * ( t + 1 ) + i;
+                if ( k < 28 ) p[t].push_back( Op( "push_front", v ));
+                else if ( k < 56 ) p[t].push_back( Op( "push_back", v ));
+                else if ( k < 78 ) p[t].push_back( Op( "pop_front" ));
+                else p[t].push_back( Op( "pop_back" ));
+            }
         }
         return p;
     }
@@ -126,15 +185,32 @@ struct Fixture {
     void thread_detach( int ) { c->k.m_pThreadRec.release(); }   // no tls_cleanup: the record never becomes `removed`
     void thread_begin( int ) {}
     void thread_end( int ) {}
-    std::vector<long> exec( int, Op const& )
+    std::vector<long> exec( int, Op const& op )
     {
-        long r = c->inc();
-        results.push_back( r );
-        return { r };
+        if ( !deque ) {
+            long r = c->inc();
+            results.push_back( r );
+            return { r };
+        }
+        unsigned code = op.name == "push_front" ? Counter::op_push_front : op.name == "push_back" ? Counter::op_push_back
+                      : op.name == "pop_front" ? Counter::op_pop_front : Counter::op_pop_back;
+        std::vector<long> r = c->dop( code, op.args.empty() ? 0 : op.args[0] );
+        if ( !op.args.empty()) pushed.push_back( op.args[0] );
+        else if ( r.size() == 2 ) popped.push_back( r[1] );
+        results.push_back( 0 );
+        return r;
     }
     void finish( std::ostream& out )
     {
         size_t n = results.size();
+        if ( deque ) {
+            std::multiset<long> pu( pushed.begin(), pushed.end()), po( popped.begin(), popped.end());
+            for ( long v : c->dq ) po.insert( v );
+            if ( pu != po ) fail( "deque-conservation: popped + remaining != pushed" );
+            if ( c->applied != n ) fail( "fc_apply-count " + std::to_string( c->applied ) + " for " + std::to_string( n ) + " requests" );
+            out << "# ops=" << n << " applied=" << c->applied << " left=" << c->dq.size() << '\n';
+            return;
+        }
         std::vector<int> seen( n, 0 );
         for ( long r : results ) {
             if ( r < 0 || size_t( r ) >= n ) { fail( "result-out-of-range " + std::to_string( r )); continue; }
